@@ -14,6 +14,7 @@ EXPLANATION = (
     "replacement. L6: the wait-for graph has no armed cycle (same engine as C08.D1). Decides these liveness preconditions, not "
     "bounded-time completion.")
 EXPLANATION += (" " + 'L10 in a loop resumed with .skip(progress) the per-element fallible call is only reached with progress advanced, or .skip is not reachable again from its completion without the advance; L11 every non-None store into deferred_index_dump_info is followed (or preceded on every path) by update_deadline before the handler returns; L12 = C12.S10 for every background task.')
+EXPLANATION += (" " + 'L13 = C10.B10 (a merge of incompatible filters would hit an expect inside the worker).')
 ASSUMPTIONS = ["panics inside callee modules (expect on poisoned std locks etc.) are outside L1: only diverging calls written in storage/observer_worker.rs are armed"]
 
 WORKER_FILE = 'src/storage/observer_worker.rs'
